@@ -2,6 +2,7 @@ package rules
 
 import (
 	"fmt"
+	"go/constant"
 	"go/types"
 	"os"
 	"path/filepath"
@@ -19,8 +20,8 @@ func init() {
 	register(&Property{
 		Meta: report.Meta{
 			Property:    "C07",
-			Explanation: "Structural necessary conditions of a lossless seal/unseal: (R1) field bijection — from toIPLD the relation 'model field is fed from token field' and from tokenFromModel the relation 'token field is fed from model field' are extracted from the stores on every success path; they must be mutually inverse bijections over ALL fields of the Token struct and of the payload model, the model's fields must be the schema's fields, and optional/nullable schema fields must have nilable Go types; (R2) codec pairing — functions named *DagCbor* only reference dagcbor codec functions, *DagJson* only dagjson, sealed variants only DAG-CBOR; (R3) key-algorithm tables — multicodecs FromPubKey emits are accepted by Parse and have unmarshallers, key types have varsig headers; (R4) writer/reader bound agreement — every *time.Time field that toIPLD serialises is, in validate(), rejected beyond +/-(2^53-1) seconds exactly as parse.OptionalTimestamp rejects it on decode; (R5) validator symmetry — what the decoder validates (command grammar, policy integers, argument integers) validate() checks on construction too; (R6) the generic decoder dispatches to the typed decoders by their Tag constants. (R8) ordered containers: in packages args and meta, on every path a key is appended to X.Keys exactly when the path knows it to be absent from X.Values and stores a value under it (a key listed twice is sealed as a repeated map key that every decoder rejects). Equality of the round-tripped values themselves is a runtime-value clause and is not decided. validate may look at a *time.Time bound only through nil tests and Unix() (what the wire keeps); the Values map of an Args / Meta is made or cloned, never another container's map. The header written by envelope.ToIPLD is result #0 of a successful varsig.Encode(Type() of the signing key) on every sealing path, and the variable holding it is not written again. (R5) every failing exit of policy.FromIPLD / statementFromIPLD / statementsFromIPLD is selected by a fact that mentions the node being decoded.",
-			Assumptions: []string{"go-ipld-prime codecs and bindnode are lossless for the bound types", "time.Unix / Time.Unix are inverse at whole-second resolution"},
+			Explanation: "Structural necessary conditions of a lossless seal/unseal: (R1) field bijection — from toIPLD the relation 'model field is fed from token field' and from tokenFromModel the relation 'token field is fed from model field' are extracted from the stores on every success path; they must be mutually inverse bijections over ALL fields of the Token struct and of the payload model, the model's fields must be the schema's fields, and optional/nullable schema fields must have nilable Go types; (R2) codec pairing — functions named *DagCbor* only reference dagcbor codec functions, *DagJson* only dagjson, sealed variants only DAG-CBOR; (R3) key-algorithm tables — multicodecs FromPubKey emits are accepted by Parse and have unmarshallers, key types have varsig headers; (R4) writer/reader bound agreement — every *time.Time field that toIPLD serialises is, in validate(), rejected beyond +/-(2^53-1) seconds exactly as parse.OptionalTimestamp rejects it on decode; (R5) validator symmetry — what the decoder validates (command grammar, policy integers, argument integers) validate() checks on construction too; (R6) the generic decoder dispatches to the typed decoders by their Tag constants. (R8) ordered containers: in packages args and meta, on every path a key is appended to X.Keys exactly when the path knows it to be absent from X.Values and stores a value under it (a key listed twice is sealed as a repeated map key that every decoder rejects). Equality of the round-tripped values themselves is a runtime-value clause and is not decided. validate may look at a *time.Time bound only through nil tests and Unix() (what the wire keeps); the Values map of an Args / Meta is made or cloned, never another container's map. The header written by envelope.ToIPLD is result #0 of a successful varsig.Encode(Type() of the signing key) on every sealing path, and the variable holding it is not written again. (R5) every failing exit of policy.FromIPLD / statementFromIPLD / statementsFromIPLD is selected by a fact that mentions the node being decoded. (R2) the float case of the JSON encoder that dagjson.Encode reaches (refmt json emitFloat, read from the module cache as part of the type-checked program) must contain a fraction marker constant, or a function of the module reachable from the DAG-JSON entry point must test for Kind_Float / call AsFloat.",
+			Assumptions: []string{"go-ipld-prime codecs and bindnode are lossless for the bound types (the float rendering of the JSON codec is not assumed: C07.R2 json-float-fidelity inspects it)", "time.Unix / Time.Unix are inverse at whole-second resolution"},
 			Trusted:     []string{"go-ipld-prime (dagcbor, dagjson, bindnode)", "golang.org/x/tools/go/ssa v0.29.0"},
 			NotDecided:  []string{"equality of round-tripped field values (runtime values)", "non-finite floats in arguments (excluded by the statement)"},
 		},
@@ -30,7 +31,7 @@ func init() {
 
 func runC07(x *Ctx) {
 	x.C.Rule("C07.R1", "field bijection token <-> model <-> schema; optional fields serialised exactly when set", 8)
-	x.C.Rule("C07.R2", "codec pairing by function name", 2)
+	x.C.Rule("C07.R2", "codec pairing by function name; floats survive the DAG-JSON form", 6)
 	x.C.Rule("C07.R3", "key-algorithm tables; the header sealed is the one the verifier expects", 4)
 	x.C.Rule("C07.R4", "constructors bound every serialised timestamp like the decoder; validate reads time bounds at wire resolution", 11)
 	x.C.Rule("C07.R5", "construct-side counterparts of decode-side validators; the policy decoder refuses only for what the document holds", 8)
@@ -132,6 +133,7 @@ func runC07(x *Ctx) {
 	validatorSymmetry(x)
 	decodeOnlyValidators(x)
 	documentDecides(x)
+	jsonFloatFidelity(x)
 	freshEncoderOutput(x)
 
 	// R6
@@ -576,6 +578,84 @@ func validatorSymmetry(x *Ctx) {
 			}
 		}
 		x.C.Obl("C07.R5", "args-validate-all", x.pos(f), "Args.Validate fails on the first value whose integers are out of bounds (range over all values)", ok, "")
+	}
+}
+
+// jsonFloatFidelity (C07.R2): a float written by the DAG-JSON encoder is read back as a float. The Any-typed fields
+// of a token (arguments, metadata, policy literals) may hold floats (literal.Any builds them); dagjson.Encode hands
+// them to refmt's JSON encoder, whose emitFloat is inspected here: unless it ensures a fraction marker, an
+// integral float (2.0, 1e15) is written as "2", the DAG-JSON decoder reads the integer 2, and the signature -
+// made over the DAG-CBOR form of the float - no longer verifies: a token the constructor accepted cannot be read
+// back from its own DAG-JSON form. The obligation holds for an entry point when the encoder keeps the marker, or
+// when the code of the module reachable from the entry point looks at float nodes before encoding (rejecting or
+// rewriting them).
+func jsonFloatFidelity(x *Ctx) {
+	sp := x.P.SSA["github.com/polydawn/refmt/json"]
+	var emit *ssa.Function
+	if sp != nil {
+		if tn := sp.Type("Encoder"); tn != nil {
+			ms := x.P.Prog.MethodSets.MethodSet(types.NewPointer(tn.Type()))
+			for i := 0; i < ms.Len(); i++ {
+				if ms.At(i).Obj().Name() == "emitFloat" {
+					emit = x.P.Prog.MethodValue(ms.At(i))
+				}
+			}
+		}
+	}
+	if emit == nil || len(emit.Blocks) == 0 {
+		x.C.Unresolved("C07.R2", "anchor:refmt/json.(*Encoder).emitFloat", "-", "the float case of the JSON encoder behind dagjson.Encode was not found in the type-checked program (dependency changed?)")
+		return
+	}
+	marker := false
+	for _, b := range emit.Blocks {
+		for _, in := range b.Instrs {
+			for _, op := range in.Operands(nil) {
+				if c, ok := (*op).(*ssa.Const); ok && c.Value != nil {
+					switch c.Value.Kind() {
+					case constant.Int:
+						if v, ok := constant.Int64Val(c.Value); ok && v == '.' {
+							if bt, isB := c.Type().Underlying().(*types.Basic); isB && (bt.Kind() == types.Uint8 || bt.Kind() == types.Int32) {
+								marker = true
+							}
+						}
+					case constant.String:
+						if strings.Contains(constant.StringVal(c.Value), ".") {
+							marker = true
+						}
+					}
+				}
+			}
+		}
+	}
+	kf, _ := x.kindConst("Kind_Float")
+	for _, name := range []string{"(*token/delegation.Token).ToDagJson", "(*token/delegation.Token).ToDagJsonWriter", "(*token/invocation.Token).ToDagJson", "(*token/invocation.Token).ToDagJsonWriter"} {
+		f := x.fn("C07.R2", name)
+		if f == nil {
+			continue
+		}
+		looks := ""
+		for g := range x.P.ReachFrom(f) {
+			for _, b := range g.Blocks {
+				for _, in := range b.Instrs {
+					switch t := in.(type) {
+					case *ssa.BinOp:
+						for _, o := range []ssa.Value{t.X, t.Y} {
+							if c, ok := o.(*ssa.Const); ok && c.Value != nil && c.Value.Kind() == constant.Int && strings.HasSuffix(c.Type().String(), "datamodel.Kind") {
+								if v, ok := constant.Int64Val(c.Value); ok && v == kf {
+									looks = load.ShortName(g)
+								}
+							}
+						}
+					case ssa.CallInstruction:
+						if cc := t.Common(); cc.IsInvoke() && cc.Method.Name() == "AsFloat" {
+							looks = load.ShortName(g)
+						}
+					}
+				}
+			}
+		}
+		x.C.Obl("C07.R2", "json-float-fidelity:"+name, x.pos(f), "a float in an Any-typed field survives the DAG-JSON form: the JSON encoder keeps a fraction marker, or the module looks at float nodes before encoding",
+			marker || looks != "", "refmt/json.(*Encoder).emitFloat ("+x.P.Pos(emit.Pos())+") formats with strconv.AppendFloat(b, f, 'f', -1, 64) and never adds a fraction marker: 2.0 is written as 2, read back as the integer 2, and the signature made over the float no longer verifies (WithArgument(\"x\", 2.0) then ToDagJson then FromDagJson: \"failed to verify the token's signature\"); no function of the module reachable from here looks at float nodes")
 	}
 }
 
